@@ -331,6 +331,13 @@ def _classify(r, g):
                 if a[1] != b[1]:
                     return "lineno"
         if rt[2] != gt[2]:
+            try:        # the same duplicate-entry difference inside a chained (__cause__/__context__) exception
+                rc = [(ce[1][0], [(eval(fr[1][0][1]), int(fr[1][1][1])) for fr in ce[1][1][1]]) for ce in rt[2][1]]
+                gc = [(ce[1][0], [(eval(fr[1][0][1]), int(fr[1][1][1])) for fr in ce[1][1][1]]) for ce in gt[2][1]]
+                if len(rc) == len(gc) and all(a[0] == b[0] and _dedup(b[1]) == a[1] for a, b in zip(rc, gc)):
+                    return "dupframe"
+            except Exception:
+                pass
             return "chain"
         return "log"
     except Exception:
